@@ -13,6 +13,8 @@
 (*   - the events the payer's user handles (PaymentSent, PaymentFailed,    *)
 (*     PaymentPathFailed), list_recent_payments after a restart, manager   *)
 (*     snapshots / restarts, and the payer's balances at quiescence.       *)
+(*   - what the payer's own persister told it: a monitor write it reported  *)
+(*     InProgress, and the user's call that reports it complete.            *)
 (*   - what the chain shows once a channel has been closed: the commitment *)
 (*     transaction that confirmed (its output values), and each spend of   *)
 (*     one of its HTLC outputs, with the preimage (the recipient's claim   *)
@@ -26,7 +28,9 @@
 EXTENDS Integers, Sequences, FiniteSets, FiniteSetsExt, TLC
 
 VARIABLES
-  pay,      \* [pid -> [node, hash, amt, nparts, fixed, gen, term, fee, rep, dead, initf, owed, blame]]  (gen: how often the id was accepted)
+  pay,      \* [pid -> [node, hash, amt, chs, fixed, gen, term, fee, rep, dead, refd, owed, blame]]  (gen: how often the id was accepted)
+            \*   chs: the first-hop channel of every part of the first attempt (the route the user / its router chose), when known
+            \*   (`fixed`); refd: the first-hop channels of the parts the payer refused at once (PaymentPathFailed, InitialSend)
   ht,       \* [<<chan, adder, id>> -> [hash, pid, gen, st, amt]]   every HTLC offered anywhere; pid = 0: not a payer's own part
             \*   st: "flight" | "ful" | "fail" | "lost"; an HTLC stays in flight after its channel was closed for as long as
             \*   an output of its value sits unspent in the confirmed (or a not yet confirmed) commitment
@@ -38,24 +42,41 @@ VARIABLES
   feeKnown, \* [node -> BOOLEAN]  every PaymentSent of the node reported its fee
   initBal,  \* [node -> msat]
   gotAdd,   \* set of nodes that were ever offered an HTLC (they are not pure payers)
-  stale     \* a node restarted from a manager snapshot its monitors had overtaken: channels were closed
+  stale,    \* a node restarted from a manager snapshot its monitors had overtaken: channels were closed
+  wip       \* set of <<node, chan, update id>>: monitor writes the node's persister reported InProgress and that the
+            \*   user has not yet reported complete
 
-svars == <<pay, ht, pidOf, released, failSeen, snap, spent, feeKnown, initBal, gotAdd, stale>>
+svars == <<pay, ht, pidOf, released, failSeen, snap, spent, feeKnown, initBal, gotAdd, stale, wip>>
 
 Pids == DOMAIN pay
 Own(pid) == {k \in DOMAIN ht : ht[k].pid = pid /\ ht[k].gen = pay[pid].gen}
 InFlight(pid) == \E k \in Own(pid) : ht[k].st = "flight"
 Settled(pid) == \E k \in Own(pid) : ht[k].st = "ful"
 Lost(pid) == \E k \in Own(pid) : ht[k].st = "lost"
+(* The outcome of every part of a send call that returned Ok, at the time it returned:                       *)
+(*   sent            its update_add_htlc left the payer (it is in `ht`),                                        *)
+(*   refused         the payer could not hand it to the first-hop channel: PaymentPathFailed (InitialSend),     *)
+(*   held            neither: the HTLC sits in the channel but cannot leave yet -- the monitor write that      *)
+(*                   records it is still in flight (send_payment_along_path: MonitorUpdateInProgress), or it    *)
+(*                   waits in the holding cell.  It WILL be offered to the peer: it is a pending HTLC of the    *)
+(*                   payment although nothing of it is on the wire.                                             *)
+(* Counted per first-hop channel, so that a part a retry sends over another channel does not stand in for it.  *)
+Count(sq, c) == Cardinality({i \in 1..Len(sq) : sq[i] = c})
+SeqSet(sq) == {sq[i] : i \in 1..Len(sq)}
+OutOn(pid, c) == Cardinality({k \in Own(pid) : k[1] = c /\ k[2] = pay[pid].node})
+HeldOn(pid, c) == Count(pay[pid].chs, c) > OutOn(pid, c) + Count(pay[pid].refd, c)
+Held(pid) == pay[pid].fixed /\ \E c \in SeqSet(pay[pid].chs) : HeldOn(pid, c)
 \* every part the payer meant to send exists as an HTLC or was refused at once
-AllPartsOut(pid) == pay[pid].fixed => Cardinality(Own(pid)) + pay[pid].initf >= pay[pid].nparts
+AllPartsOut(pid) == ~Held(pid)
+\* the channel of a held part has a monitor write in flight (why it is held; recorded for the runs' statistics)
+HeldByWrite(pid) == pay[pid].fixed /\ \E c \in SeqSet(pay[pid].chs) : HeldOn(pid, c) /\ \E w \in wip : w[1] = pay[pid].node /\ w[2] = c
 
 SInit ==
   /\ pay = <<>> /\ ht = <<>> /\ pidOf = <<>> /\ released = {} /\ failSeen = {}
-  /\ snap = <<>> /\ spent = <<>> /\ feeKnown = <<>> /\ initBal = <<>> /\ gotAdd = {} /\ stale = FALSE
+  /\ snap = <<>> /\ spent = <<>> /\ feeKnown = <<>> /\ initBal = <<>> /\ gotAdd = {} /\ stale = FALSE /\ wip = {}
 
 SOpen(nodes, bal) ==
-  /\ pay' = <<>> /\ ht' = <<>> /\ pidOf' = <<>> /\ released' = {} /\ failSeen' = {} /\ gotAdd' = {} /\ stale' = FALSE
+  /\ pay' = <<>> /\ ht' = <<>> /\ pidOf' = <<>> /\ released' = {} /\ failSeen' = {} /\ gotAdd' = {} /\ stale' = FALSE /\ wip' = {}
   /\ snap' = [n \in nodes |-> <<>>]
   /\ spent' = [n \in nodes |-> 0]
   /\ feeKnown' = [n \in nodes |-> TRUE]
@@ -63,11 +84,15 @@ SOpen(nodes, bal) ==
 
 Put(f, k, v) == [x \in DOMAIN f \cup {k} |-> IF x = k THEN v ELSE f[x]]
 
-(* ---- send_payment* returned `res` ("ok" | "dup" | "err").                *)
-(* DupRefused: while any HTLC of the id is unresolved a second send is refused. *)
-SSend(node, pid, hash, amt, nparts, fixed, res) ==
-  LET rec == [node |-> node, hash |-> hash, amt |-> amt, nparts |-> nparts, fixed |-> fixed,
-              gen |-> IF pid \in Pids THEN pay[pid].gen + 1 ELSE 1, term |-> "none", fee |-> -1, rep |-> FALSE, dead |-> FALSE, initf |-> 0,
+(* ---- send_payment* returned `res` ("ok" | "dup" | "err").  chs: first-hop channel of every part of the  *)
+(* route of the first attempt (meaningful when `fixed`); handled: the user had handled every event queued   *)
+(* before the call.                                                                                          *)
+(* DupRefused: while any HTLC of the id is unresolved -- on the wire, or held back in the payer (known for  *)
+(* sure once the PaymentPathFailed events of the parts refused at once have been handled) -- a second send  *)
+(* is refused.                                                                                               *)
+SSend(node, pid, hash, amt, chs, fixed, handled, res) ==
+  LET rec == [node |-> node, hash |-> hash, amt |-> amt, chs |-> chs, fixed |-> fixed,
+              gen |-> IF pid \in Pids THEN pay[pid].gen + 1 ELSE 1, term |-> "none", fee |-> -1, rep |-> FALSE, dead |-> FALSE, refd |-> <<>>,
               \* the id was re-used after all its HTLCs failed but before the user handled the
               \* PaymentFailed of the earlier use (or a legal repetition of it): `owed` such
               \* events may still arrive
@@ -81,10 +106,10 @@ SSend(node, pid, hash, amt, nparts, fixed, res) ==
       other == IF hash \in DOMAIN pidOf /\ pidOf[hash] # pid /\ pidOf[hash] \in Pids THEN {pidOf[hash]} ELSE {}
       base == [p \in Pids |-> IF p \in other THEN [pay[p] EXCEPT !.blame = FALSE] ELSE pay[p]]
   IN
-  /\ (res = "ok" /\ pid \in Pids) => ~InFlight(pid)
+  /\ (res = "ok" /\ pid \in Pids) => (~InFlight(pid) /\ (handled => ~Held(pid)))
   /\ pidOf' = IF res = "ok" THEN Put(pidOf, hash, pid) ELSE pidOf
   /\ pay' = IF res = "ok" THEN Put(base, pid, rec) ELSE pay
-  /\ UNCHANGED <<ht, released, failSeen, snap, spent, feeKnown, initBal, gotAdd, stale>>
+  /\ UNCHANGED <<ht, released, failSeen, snap, spent, feeKnown, initBal, gotAdd, stale, wip>>
 
 (* ---- an update_add_htlc leaves `node` (retransmissions after a reconnection repeat the key). *)
 (* A payment that already reported its outcome, or that a restarted node forgot, gets no new HTLC. *)
@@ -95,28 +120,28 @@ SAdd(node, chan, id, hash, amt) ==
         ELSE /\ mine => (pay[pidOf[hash]].term = "none" /\ ~pay[pidOf[hash]].dead)
              /\ ht' = Put(ht, k, [hash |-> hash, pid |-> IF mine THEN pidOf[hash] ELSE 0,
                                    gen |-> IF mine THEN pay[pidOf[hash]].gen ELSE 0, st |-> "flight", amt |-> amt])
-     /\ UNCHANGED <<pay, pidOf, released, failSeen, snap, spent, feeKnown, initBal, gotAdd, stale>>
+     /\ UNCHANGED <<pay, pidOf, released, failSeen, snap, spent, feeKnown, initBal, gotAdd, stale, wip>>
 
 (* ---- an update_add_htlc is handed to `node`: it is not a pure payer. *)
-SGotAdd(node) == gotAdd' = gotAdd \cup {node} /\ UNCHANGED <<pay, ht, pidOf, released, failSeen, snap, spent, feeKnown, initBal, stale>>
+SGotAdd(node) == gotAdd' = gotAdd \cup {node} /\ UNCHANGED <<pay, ht, pidOf, released, failSeen, snap, spent, feeKnown, initBal, stale, wip>>
 
 (* ---- an update_fail_htlc is emitted on `chan` towards `adder` (ground truth of the failing hop). *)
 SFailMsg(chan, adder, id) ==
   LET k == <<chan, adder, id>> IN
   /\ failSeen' = IF k \in DOMAIN ht THEN failSeen \cup {<<ht[k].hash, chan>>} ELSE failSeen
-  /\ UNCHANGED <<pay, ht, pidOf, released, snap, spent, feeKnown, initBal, gotAdd, stale>>
+  /\ UNCHANGED <<pay, ht, pidOf, released, snap, spent, feeKnown, initBal, gotAdd, stale, wip>>
 
 (* ---- an update_fulfill_htlc / update_fail_htlc is handed to the node that offered the HTLC.  *)
 (* Duplicates (retransmission after a reconnection, replay after a restart) change nothing.      *)
 SResolve(chan, adder, id, how) ==
   LET k == <<chan, adder, id>> IN
   /\ ht' = IF k \in DOMAIN ht /\ ht[k].st = "flight" THEN [ht EXCEPT ![k].st = how] ELSE ht
-  /\ UNCHANGED <<pay, pidOf, released, failSeen, snap, spent, feeKnown, initBal, gotAdd, stale>>
+  /\ UNCHANGED <<pay, pidOf, released, failSeen, snap, spent, feeKnown, initBal, gotAdd, stale, wip>>
 
 (* ---- a recipient calls claim_funds for `hash`: from now on the preimage is released. *)
 SClaimCall(hash) ==
   /\ released' = released \cup {hash}
-  /\ UNCHANGED <<pay, ht, pidOf, failSeen, snap, spent, feeKnown, initBal, gotAdd, stale>>
+  /\ UNCHANGED <<pay, ht, pidOf, failSeen, snap, spent, feeKnown, initBal, gotAdd, stale, wip>>
 
 (* ---- the payer's user handles Event::PaymentSent.                                        *)
 (* SentTruthful: the recipient released the preimage and the reported preimage matches.     *)
@@ -134,10 +159,11 @@ SEvSent(node, pid, hash, preimageOk, fee) ==
      THEN /\ spent' = [spent EXCEPT ![node] = @ + pay[pid].amt + (IF fee >= 0 THEN fee ELSE 0)]
           /\ feeKnown' = [feeKnown EXCEPT ![node] = @ /\ fee >= 0]
      ELSE UNCHANGED <<spent, feeKnown>>
-  /\ UNCHANGED <<ht, pidOf, released, failSeen, snap, initBal, gotAdd, stale>>
+  /\ UNCHANGED <<ht, pidOf, released, failSeen, snap, initBal, gotAdd, stale, wip>>
 
 (* ---- the payer's user handles Event::PaymentFailed.                                      *)
-(* FailedTruthful: no part was settled and none is still in flight.                         *)
+(* FailedTruthful: no part was settled and none is still pending: in flight, or held back in *)
+(* the payer behind a monitor write that has not completed (AllPartsOut).                    *)
 SEvFailed(node, pid) ==
   /\ pid \in Pids /\ pay[pid].node = node
   /\ \/ /\ pay[pid].owed > 0
@@ -145,7 +171,7 @@ SEvFailed(node, pid) ==
      \/ /\ ~Settled(pid) /\ ~InFlight(pid) /\ AllPartsOut(pid)
         /\ pay[pid].term = "none" \/ (pay[pid].term = "failed" /\ pay[pid].rep)
         /\ pay' = [pay EXCEPT ![pid].term = "failed", ![pid].rep = FALSE]
-  /\ UNCHANGED <<ht, pidOf, released, failSeen, snap, spent, feeKnown, initBal, gotAdd, stale>>
+  /\ UNCHANGED <<ht, pidOf, released, failSeen, snap, spent, feeKnown, initBal, gotAdd, stale, wip>>
 
 (* ---- Event::PaymentPathFailed.  BlameChannel: the named channel is the one at which the   *)
 (* failure occurred: the hop the failing node received the HTLC on or the hop it could not   *)
@@ -162,16 +188,18 @@ SEvPathFailed(node, pid, hash, blamed, initial, path) ==
      ELSE IF K = {} THEN TRUE     \* failed inside the payer itself: nothing to compare with
      ELSE IF k = Len(path) THEN blamed \in {path[k], 0}
      ELSE blamed \in {path[k], path[k + 1]}
-  /\ pay' = IF initial THEN [pay EXCEPT ![pid].initf = @ + 1] ELSE pay
+  \* (events are handled in the order they were queued: while a PaymentFailed of an earlier use of the id is still
+  \* owed, this event stems from that use, not from the parts of the present one)
+  /\ pay' = IF initial /\ pay[pid].owed = 0 THEN [pay EXCEPT ![pid].refd = Append(@, IF Len(path) > 0 THEN path[1] ELSE 0)] ELSE pay
   /\ failSeen' = failSeen \ {<<hash, path[j]>> : j \in 1..Len(path)}
-  /\ UNCHANGED <<ht, pidOf, released, snap, spent, feeKnown, initBal, gotAdd, stale>>
+  /\ UNCHANGED <<ht, pidOf, released, snap, spent, feeKnown, initBal, gotAdd, stale, wip>>
 
 (* ---- the node's manager is persisted / the node restarts from that snapshot.             *)
 SSave(node) ==
   /\ snap' = [snap EXCEPT ![node] = [p \in {q \in Pids : pay[q].node = node} |->
                                       \* while a repetition is pending the restarted manager does not know the event was handled
                                       [term |-> IF pay[p].rep THEN "none" ELSE pay[p].term, owed |-> pay[p].owed]]]
-  /\ UNCHANGED <<pay, ht, pidOf, released, failSeen, spent, feeKnown, initBal, gotAdd, stale>>
+  /\ UNCHANGED <<pay, ht, pidOf, released, failSeen, spent, feeKnown, initBal, gotAdd, stale, wip>>
 
 (* isStale: the monitors were ahead of the snapshot (LDK closes those channels).  A part the crash  *)
 (* caught before its update_add_htlc left the node is gone for good: the number of parts is no      *)
@@ -185,7 +213,7 @@ SRestart(node, isStale) ==
                            !.owed = IF p \in DOMAIN snap[node] /\ snap[node][p].owed > @ THEN snap[node][p].owed ELSE @]
        ELSE pay[p]]
   /\ stale' = (stale \/ isStale)
-  /\ UNCHANGED <<ht, pidOf, released, failSeen, snap, spent, feeKnown, initBal, gotAdd>>
+  /\ UNCHANGED <<ht, pidOf, released, failSeen, snap, spent, feeKnown, initBal, gotAdd, wip>>
 
 (* ---- a commitment transaction of `chan` confirmed with output values `outs` (sat).  An HTLC in   *)
 (* flight on that channel without an output of its value (dust, or not part of this commitment) can *)
@@ -202,7 +230,7 @@ SChainCommit(chan, outs) ==
   /\ ht' = [k \in DOMAIN ht |-> IF noOutput(k) /\ ht[k].st = "flight" THEN [ht[k] EXCEPT !.st = "fail"]
                                  ELSE IF noOutput(k) /\ unreported(k) THEN [ht[k] EXCEPT !.st = "lost"]
                                  ELSE ht[k]]
-  /\ UNCHANGED <<pay, pidOf, released, failSeen, snap, spent, feeKnown, initBal, gotAdd, stale>>
+  /\ UNCHANGED <<pay, pidOf, released, failSeen, snap, spent, feeKnown, initBal, gotAdd, stale, wip>>
 
 (* ---- a confirmed transaction spends an HTLC output of `chan`'s commitment whose script commits   *)
 (* to `hash`: with the preimage the recipient's claim was settled on-chain, without it the HTLC     *)
@@ -210,7 +238,18 @@ SChainCommit(chan, outs) ==
 SChainHtlc(chan, hash, preimage) ==
   /\ ht' = [k \in DOMAIN ht |-> IF k[1] = chan /\ ht[k].hash = hash /\ ht[k].st = "flight"
                                  THEN [ht[k] EXCEPT !.st = IF preimage THEN "ful" ELSE "fail"] ELSE ht[k]]
-  /\ UNCHANGED <<pay, pidOf, released, failSeen, snap, spent, feeKnown, initBal, gotAdd, stale>>
+  /\ UNCHANGED <<pay, pidOf, released, failSeen, snap, spent, feeKnown, initBal, gotAdd, stale, wip>>
+
+(* ---- the node's persister reported the write `id` of `chan`'s monitor InProgress / the user reports it   *)
+(* complete (ChainMonitor::channel_monitor_updated).  Nothing is demanded of these observations themselves;  *)
+(* they say why a part of a payment may be held back (HeldByWrite) and when a run is quiet.                  *)
+SPersistInProgress(node, chan, id) ==
+  /\ wip' = wip \cup {<<node, chan, id>>}
+  /\ UNCHANGED <<pay, ht, pidOf, released, failSeen, snap, spent, feeKnown, initBal, gotAdd, stale>>
+SPersistComplete(node, chan, id) ==
+  /\ <<node, chan, id>> \in wip
+  /\ wip' = wip \ {<<node, chan, id>>}
+  /\ UNCHANGED <<pay, ht, pidOf, released, failSeen, snap, spent, feeKnown, initBal, gotAdd, stale>>
 
 (* ---- list_recent_payments right after a restart.  ForgottenIsDead: a payment that is no   *)
 (* longer listed has no HTLC in flight and (guards of SAdd / SEvSent) never completes.       *)
@@ -218,7 +257,7 @@ SRecentAfterRestart(node, listed) ==
   /\ \A p \in Pids : (pay[p].node = node /\ p \notin listed) => ~InFlight(p)
   /\ pay' = [p \in Pids |-> IF pay[p].node = node /\ p \notin listed /\ pay[p].term # "sent"
                             THEN [pay[p] EXCEPT !.dead = TRUE] ELSE pay[p]]
-  /\ UNCHANGED <<ht, pidOf, released, failSeen, snap, spent, feeKnown, initBal, gotAdd, stale>>
+  /\ UNCHANGED <<ht, pidOf, released, failSeen, snap, spent, feeKnown, initBal, gotAdd, stale, wip>>
 
 (* ---- quiescence: every link is up and empty, every event has been handled.                *)
 (* SentComplete / FailedComplete: a payment none of whose HTLCs is pending has reported its   *)
